@@ -22,8 +22,7 @@ CHECKS = {
                      'livelock guard) and every signal seen by user code must belong to an open scope / the task itself.  Added: TLC '
                      'checks the liveness property Termination under weak fairness (no livelock in the design); random programs '
                      'over the whole vocabulary run on the real code and TLC validates their traces against the monitor AND against '
-                     'the operational spec itself (USimT: every recorded trace must be a behaviour of USim); kernel-level traces of '
-                     'the repository test suite are validated against ObsK.',
+                     'the operational spec itself (USimT: every recorded trace must be a behaviour of USim).',
                 note='Bounded programs; livelock is detected by an activation bound per time step in the harness; '
                      'classification of an exception as internal is by its class/arguments (harness exceptions carry integer ids).'),
     'C04': dict(obs='ObsC04', ref='4/C04',
@@ -72,7 +71,10 @@ CHECKS = {
                      'seeded random programs beyond TLC\'s bounds (up to 8 roots plus children, decimal float dates, many pending '
                      'dates, non-zero and negative start times) are added; TLC validates every recorded trace against ObsC01 '
                      '(clock never decreases, each timed wait resumes exactly at its date, impossible dates never resume, delayed '
-                     'tasks start exactly at their date).',
+                     'tasks start exactly at their date).  Kernel level: every Loop created by the repository test suite (pytest '
+                     'plugin ktrace) and by random float-date / ticker / rendez-vous programs is recorded at the level of '
+                     'schedule / revoke / deliver and TLC validates it against ObsK (nothing queued in the past, clock monotone, '
+                     'no live activation left behind).',
                 note='For float dates the expected resume date is computed by the harness with the same float addition as the '
                      'loop and all dates are mapped to their rank (TLC has no floats); integer programs are checked with the '
                      'monitor\'s own arithmetic.'),
@@ -184,7 +186,11 @@ CHECKS = {
                      'comparisons on one tracked value, float-date storms, many waiting borrowers) are executed under 8 '
                      'configurations in separate processes (PYTHONHASHSEED 0/1/random, heap perturbation with unrelated '
                      'allocations and gc on/off, USIM_WAITQUEUE heap/SD, python -O) and TLC validates the side-by-side record of '
-                     'each program against ObsC02: all runs agree at every position of the trace.',
+                     'each program against ObsC02: all runs agree at every position of the trace.  Kernel level: the scheduling '
+                     'decisions of every Loop of the repository test suite and of random programs (incl. rendez-vous programs: '
+                     'several activities asking at different fractional times for the same absolute decimal date) are validated '
+                     'by TLC against ObsK: activations of one date are delivered in the order they were queued, revoked ones '
+                     'skipped, nothing delivered that was not queued for that date.',
                 note='Memory layouts are sampled (seeded perturbation), not enumerated; only programs free of usage-assertion '
                      'violations are compared under -O.',
                 level='model_checking'),
